@@ -22,7 +22,7 @@ LEVEL_NOTE = ("Trusted: Lean kernel (+ standard axioms); kernel translator (K10)
 TECHNIQUE = "Lean 4 refinement proof (induction over the history) to a dictionary; kernel K10 from source; correspondence"
 DESIGN_REF = "7"
 LEAN_MODULES = ["NpsVerif.Props.C11"]
-KERNELS = ("ht_hash",)
+KERNELS = ("ht_hash", "ht_mod")
 RULE = ("cases = key set (1..48 distinct keys: small / colliding / negative / +-2**62 / dtype extremes) x key dtype x modulus (None, 1, 2, 3, "
         "7, n, 2n-1, 1000) x initial values (per-key array / scalar) x history of 1..8 operations (vector & single lookup, scalar & "
         "per-key assignment, fill, contains, HashSet.contains, items / to_dict, zeros_like, ones_like, +, ==) with ~25% malformed "
